@@ -36,6 +36,6 @@ def handle (s : State) : List String → State × String
       | none => (s, "DISABLED")
       | some (s', o) => (s', outStr o)
 
-def main : IO Unit := Driver.serve (init false) handle
-
 end Driver.Lock
+
+def main : IO Unit := Driver.serve (AnyioModel.Sync.Lock.init false) Driver.Lock.handle
